@@ -482,9 +482,56 @@ func TestC07(t *testing.T) {
 				d.Path = strings.TrimLeft(d.Path, "/~")
 			}
 		}
+		// a fifth of the cases: a Y directive opens the journal and half of the transactions write their
+		// dates without year; the damaged entry is a transaction of another, written year with a
+		// secondary date, and the first damage falls on that secondary date. The year such a header
+		// hands to its secondary date must not reach the entries below. (The Y directive itself is never
+		// the damaged entry: what it says legitimately reaches later entries.)
+		forced := -1
+		var txs []int
+		for i := range j.Entries {
+			if j.Entries[i].Tx != nil {
+				txs = append(txs, i)
+			}
+		}
+		if len(txs) > 0 && !disabled("date.partial") && !disabled("dir.Y") && rapid.IntRange(0, 4).Draw(t, "yearshape") == 0 {
+			y0 := rapid.IntRange(1990, 2030).Draw(t, "y0")
+			forced = rapid.SampledFrom(txs).Draw(t, "yentry")
+			for _, i := range txs {
+				tx := j.Entries[i].Tx
+				switch {
+				case i == forced:
+					tx.Date.Partial = false
+					tx.Date.Y = y0 + rapid.SampledFrom([]int{-1, 1, 7}).Draw(t, "yoff")
+					if tx.Date2 == nil {
+						d2 := tx.Date
+						d2.D = rapid.IntRange(1, 28).Draw(t, "d2d")
+						d2.Partial = rapid.Bool().Draw(t, "d2partial")
+						tx.Date2 = &d2
+					}
+					tx.Date2.Y = tx.Date.Y
+				case rapid.Bool().Draw(t, "ypartial"):
+					tx.Date.Partial, tx.Date.Y = true, y0
+					if tx.Date2 != nil && tx.Date2.Partial {
+						tx.Date2.Y = y0
+					}
+				}
+			}
+			j.Entries = append([]m.Entry{{Dir: &m.Directive{Kind: "Y", Year: y0}, Blank: rapid.IntRange(0, 1).Draw(t, "yblank")}}, j.Entries...)
+			forced++
+		}
 		r := m.Render(j)
 		e := rapid.IntRange(0, len(j.Entries)-1).Draw(t, "entry")
+		if forced >= 0 {
+			e = forced
+		}
 		c := &C07Case{Journal: j, Entry: e, Ops: genDamage(t, r.EntryEnd[e]-r.EntryLine[e]+1)}
+		if forced >= 0 {
+			at := strings.Index(r.Lines[r.EntryLine[e]], "=")
+			first := DamageOp{Kind: rapid.SampledFrom([]string{"overwrite", "insert", "truncate"}).Draw(t, "ykind"), Line: 0,
+				Col: at + rapid.IntRange(1, 6).Draw(t, "ycol"), Len: rapid.IntRange(1, 8).Draw(t, "ylen"), Text: rapid.SampledFrom(dmgTexts).Draw(t, "ytext")}
+			c.Ops = append([]DamageOp{first}, c.Ops...)
+		}
 		if rapid.IntRange(0, 2).Draw(t, "orphan") == 0 {
 			c.Orphan = true
 			if rapid.Bool().Draw(t, "orphanop") {
@@ -501,6 +548,9 @@ func TestC07(t *testing.T) {
 			kind = "entry:directive"
 		}
 		cls := []string{kind}
+		if forced >= 0 {
+			cls = append(cls, "damaged-secondary-date-under-a-Y-directive")
+		}
 		for _, op := range c.Ops {
 			cls = append(cls, "op:"+op.Kind)
 		}
